@@ -13,7 +13,8 @@
 (*                                     -> buildHandshakeState: applyPreset-*)
 (*                                     ByID iff NotBuilt, ApplyConfig,     *)
 (*                                     MarshalClientHello, status          *)
-(*   Edit(c, always)    u_conn.go      SetClientRandom, SetSNI,            *)
+(*   Edit(c, always)    u_conn.go      SetClientRandom, SetSNI (any kind   *)
+(*                                     of argument, see HostnameInSNI),    *)
 (*                                     RemoveSNIExtension; direct edits of *)
 (*                                     Hello.CipherSuites, Hello.SessionId,*)
 (*                                     UConn.Extensions                    *)
@@ -64,13 +65,46 @@ bvars == <<cls, status, applied, omitSNI, pending, raw, rebuilt, wire, sent, hrr
 NoSer == [id |-> "", img |-> BadHello]
 S(id, img) == [id |-> id, img |-> img]
 
+\* ------------------------------------------------------------------ the library's hostnameInSNI (handshake_client.go)
+\* What a name becomes in the server_name extension: brackets and a zone are ignored for the test "is an IP literal",
+\* literals give the empty name (= no server_name extension at all, RFC 6066), trailing dots are dropped.
+\* The literal test is the textual form of RFC 4291 / dotted quad (no embedded IPv4), enough for any argument used here.
+RECURSIVE StripDots(_)
+StripDots(n) == IF n # <<>> /\ n[Len(n)] = 46 THEN StripDots(SubSeq(n, 1, Len(n) - 1)) ELSE n
+Unbracket(n) == IF Len(n) >= 2 /\ n[1] = 91 /\ n[Len(n)] = 93 THEN SubSeq(n, 2, Len(n) - 1) ELSE n
+DropZone(h) == LET I == {i \in 2..Len(h) : h[i] = 37} IN
+               IF I = {} THEN h ELSE SubSeq(h, 1, (CHOOSE i \in I : \A j \in I : j <= i) - 1)
+\* the pieces of h between separators c, as pairs <<first, last>> of positions
+Pieces(h, c) == LET B == {0, Len(h) + 1} \cup {i \in DOMAIN h : h[i] = c} IN
+                {<<a + 1, b - 1>> : <<a, b>> \in {p \in B \X B : p[1] < p[2] /\ ~\E x \in B : p[1] < x /\ x < p[2]}}
+IsDigit(x) == x \in 48..57
+IsHex(x) == x \in (48..57) \cup (65..70) \cup (97..102)
+DecVal(h, a, b) == IF b - a = 0 THEN h[a] - 48 ELSE IF b - a = 1 THEN (h[a] - 48) * 10 + h[b] - 48
+                   ELSE (h[a] - 48) * 100 + (h[a + 1] - 48) * 10 + h[b] - 48
+IsIPv4(h) == /\ Cardinality({i \in DOMAIN h : h[i] = 46}) = 3
+             /\ \A p \in Pieces(h, 46) : /\ p[2] >= p[1] /\ p[2] - p[1] <= 2
+                                          /\ \A i \in p[1]..p[2] : IsDigit(h[i])
+                                          /\ (p[2] > p[1] => h[p[1]] # 48)
+                                          /\ DecVal(h, p[1], p[2]) <= 255
+IsIPv6(h) == LET colons == {i \in DOMAIN h : h[i] = 58}
+                 dbl == {i \in colons : i + 1 \in colons}
+                 empty == {p \in Pieces(h, 58) : p[2] < p[1]} IN
+             /\ \A i \in DOMAIN h : IsHex(h[i]) \/ h[i] = 58
+             /\ Cardinality(colons) >= 2 /\ Cardinality(colons) <= 7
+             /\ \A p \in Pieces(h, 58) : p[2] - p[1] <= 3
+             /\ Cardinality(dbl) <= 1 + (IF h[1] = 58 /\ 2 \in colons /\ 3 \in colons THEN 1 ELSE 0)
+             /\ IF dbl = {} THEN Cardinality(colons) = 7 /\ empty = {}
+                ELSE \A i \in colons : (i = 1 \/ i = Len(h)) => (i \in dbl \/ i - 1 \in dbl)
+HostnameInSNI(name) == LET host == DropZone(Unbracket(name)) IN
+                       IF host # <<>> /\ (IsIPv4(host) \/ IsIPv6(host)) THEN <<>> ELSE StripDots(name)
+
 \* ------------------------------------------------------------------ claims
 SNIBody(name) == Vec16(<<0>> \o Vec16(name))
 C(kind, key, t, v) == [kind |-> kind, key |-> key, t |-> t, v |-> v]
 CRandom(r)      == C("random", <<"random">>, 0, r)
 CSessionId(s)   == C("sid", <<"sid">>, 0, s)
 CSuites(l)      == C("suites", <<"suites">>, 0, l)
-CSNI(name)      == C("sni", <<"sni">>, 0, name)          \* name as the library normalises it (hostnameInSNI)
+CSNI(name)      == C("sni", <<"sni">>, 0, name)          \* name as the library normalises it (hostnameInSNI); empty: no extension
 CNoSNI          == C("nosni", <<"nosni">>, 0, <<>>)
 CExt(t, body)   == C("ext", <<"ext", t>>, t, body)        \* exactly one extension of type t, with this body
 CNoExt(t)       == C("noext", <<"ext", t>>, t, <<>>)
@@ -83,7 +117,8 @@ Holds(c, img, p) ==
   CASE c.kind = "random" -> img.random = c.v
     [] c.kind = "sid"    -> img.sid = c.v
     [] c.kind = "suites" -> img.suites = c.v
-    [] c.kind = "sni"    -> IF CNoSNI \in p \/ c.v = <<>> THEN TRUE
+    [] c.kind = "sni"    -> IF CNoSNI \in p THEN TRUE
+                            ELSE IF c.v = <<>> THEN ~HasExtT(img, 0)     \* a literal or the empty name is never indicated
                             ELSE Cardinality(ExtIdx(img, 0)) = 1 /\ ExtBody(img, 0) = SNIBody(c.v)
     [] c.kind = "nosni"  -> ~HasExtT(img, 0)
     [] c.kind = "ext"    -> Cardinality(ExtIdx(img, c.t)) = 1 /\ ExtBody(img, c.t) = c.v
@@ -135,6 +170,8 @@ ExtInsert(t, body) == /\ phase = "edit"
                       /\ pending' = IF Protected THEN Add(Add(pending, CExt(t, body)), CFront(<<t>> \o Front(pending))) ELSE pending
                       /\ UNCHANGED <<cls, status, applied, omitSNI, raw, rebuilt, wire, sent, hrrSeen, phase>>
 ExtRemove(t)       == Edit(CNoExt(t), FALSE) /\ UNCHANGED omitSNI
+\* the ServerName field of the SNIExtension object in UConn.Extensions assigned directly (found: the list has one)
+ExtSNIField(norm, found) == IF found THEN Edit(CSNI(norm), FALSE) /\ UNCHANGED omitSNI ELSE UNCHANGED bvars
 \* the protocol list of the ALPN extension object replaced (found: the extension list has one)
 ExtALPN(body, found) == IF found THEN Edit(CExt(16, body), FALSE) /\ UNCHANGED omitSNI ELSE UNCHANGED bvars
 
